@@ -52,7 +52,15 @@ static void mutate_solve_options(Rng& rng, SolverConfig& c, std::string& what)
 }
 static void mutate_setup_options(Rng& rng, SolverConfig& c, std::string& what)
 {
-    switch (rng.range(0, 6)) {
+    switch (rng.range(0, 7)) {
+    case 7: { // another inner radius: same node counts, other radii and (usually) another smoother split
+        double r0 = c.R0;
+        while (r0 == c.R0)
+            r0 = rng.pick({1e-5, 1e-3, 0.1, 0.3});
+        c.R0 = r0;
+        what = "R0";
+        break;
+    }
     case 0: c.divideBy2 = (c.divideBy2 + 1) % 2; what = "divideBy2"; break;
     case 1: c.nr_exp = c.nr_exp == 4 ? 3 : 4; what = "nr_exp"; break;
     case 2: c.extrapolation = rng.range(0, 3); what = "extrapolation"; break;
@@ -71,6 +79,7 @@ static void mutate_setup_options(Rng& rng, SolverConfig& c, std::string& what)
 static void apply_changed(GMGPolar& g, const SolverConfig& a, const SolverConfig& b)
 {
     if (a.divideBy2 != b.divideBy2) g.divideBy2(b.divideBy2);
+    if (a.R0 != b.R0) g.R0(b.R0);
     if (a.nr_exp != b.nr_exp) g.nr_exp(b.nr_exp);
     if (a.extrapolation != b.extrapolation) g.extrapolation(static_cast<ExtrapolationType>(b.extrapolation));
     if (a.fmg != b.fmg) g.FMG(b.fmg);
